@@ -187,7 +187,9 @@ func (c *Ctx) freshVal(hint string, t types.Type, lift []string) Val {
 func (c *Ctx) freshShape(hint string, t types.Type, lift []string, top bool) Val {
 	k, name := classify(t)
 	switch k {
-	case kInt, kErr, kAny, kRef:
+	case kAny:
+		return Sc{c.fresh(hint, liftSort(SDyn, lift)), liftSort(SDyn, lift)}
+	case kInt, kErr, kRef:
 		s := SInt
 		if c.bv && k == kInt {
 			s = SBV
@@ -353,7 +355,9 @@ func (c *Ctx) typeInvs(v Val, t types.Type, depth int) []string {
 func (c *Ctx) zeroVal(t types.Type, lift []string) Val {
 	k, name := classify(t)
 	switch k {
-	case kInt, kErr, kAny, kRef:
+	case kAny:
+		return Sc{zeroOf(liftSort(SDyn, lift)), liftSort(SDyn, lift)}
+	case kInt, kErr, kRef:
 		s := SInt
 		if c.bv && k == kInt {
 			s = SBV
